@@ -199,8 +199,14 @@ def run(ctx):
         replay(ev)
     ctx.behaviours += len(evs)
     if T:
-        ctx.tlc("MC_Signals", "SPECIFICATION Spec\n" + INVS + "CONSTANTS MaxHeap = 3\n Pool <- PoolSingles\n",
-                workers=16, note="programs of depth 2 on single objects (model only)", timeout=6000)
+        r2 = ctx.tlc("MC_Signals", "SPECIFICATION Spec\n" + INVS + "INVARIANT Emit\nCONSTANTS MaxHeap = 3\n Pool <- PoolSingles\n",
+                     workers=1, note="programs of depth 2 on single objects (replayed)", timeout=9000)
+        evs2 = parse_ev(r2.out)
+        if len(evs2) != r2.distinct:
+            raise MachineryError(f"parsed {len(evs2)} of {r2.distinct} states")
+        for ev in evs2:
+            replay(ev)
+        ctx.behaviours += len(evs2)
     # constructor table
     N = 3
     r = ctx.tlc("SignalsCtor", f"SPECIFICATION Spec\nINVARIANT Contract\nINVARIANT Emit\nCHECK_DEADLOCK FALSE\nCONSTANTS N = {N}\n",
